@@ -1,6 +1,7 @@
 import DeltaModel.Proto
 import DeltaModel.Ansi
 import DeltaModel.Links
+import DeltaModel.Ingest
 /-!
 Model driver `drv_ansi`: answers the same `ansi.*` requests as `/repo/src/verif_hooks/ansi.rs`.
 Unicode data (string widths, grapheme clusters) arrive as tables in the request; a missing entry
@@ -273,6 +274,12 @@ def step (line : String) : String :=
       exc ((truncate U s w tail (if fill = 1 then some [0x20] else none)).map
         fun r => "ok " ++ hexOfBytes r)
     | _, _, _, _, _ => "ERR"
+  -- ingest.line <max_line_length> <truncation symbol> <raw> <tables>: `ingest_line` -> raw_line, line
+  | "ingest.line" :: maxLen :: sym :: raw :: tabs =>
+    match natOfField maxLen, bytesOfField sym, bytesOfField raw, tables tabs with
+    | some maxLen, some sym, some raw, some U =>
+      exc ((Ingest.ingest U maxLen sym raw).map fun (r, l) => "ok " ++ hexOfBytes r ++ " " ++ hexOfBytes l)
+    | _, _, _, _ => "ERR"
   | ["ansi.parse_style_sections", s] =>
     match bytesOfField s with
     | some s =>
